@@ -25,7 +25,7 @@ SPEC = {
         "vs Model/CheckSwitch.v on generated configs (incl. the identical check in 2-3 blocks with different selectors) x flags x entries (real finder) x command; each live check object is also compared with the generated tables",
         "inputs of the model not modelled here: isMatch verdicts (C09), comment parsing (C07/C10), regexp engine (oracle table computed with Go's regexp), HCL decoding",
         "harness export harness/shared_config/export_config.go repeats the construction half of GetChecksForEntry (ErrorCheck | baseRules ++ parseRule) to expose the parsed rules",
-        "oracle on the real binary, fixed bases: pint lint --json runs (and one pint ci repository for rule/dependency) that differ from an all-kinds baseline by one "
+        "oracle on the real binary, fixed bases: pint lint --json runs (and two pint ci repositories: a removed recording rule for rule/dependency; a branch that leaves all rules untouched with checks on state any and state-scoped rule{disable} blocks) that differ from an all-kinds baseline by one "
         "--disabled/--enabled/checks{}/rule{disable}/rule{enable}/--offline, for every check name, and every CLI switch crossed with its configuration-file counterparts (--enabled x checks{enabled} with the name inside / outside the file's list, "
         "--disabled x checks{enabled}, --enabled x checks{disabled} same / other name, --disabled x checks{disabled}; documented precedence: --enabled replaces, --disabled adds, disabled wins); all 27 reporters are triggered",
         "oracle on the real binary, random bases (harness/C08/c08_pairs.go): base = 1-3 unreachable prometheus servers with tags x locked or not x --disabled values "
